@@ -216,9 +216,14 @@ func (c *Ctx) Parallel(label string, n int, chunk int, f func(w *Worker, i int))
 		for i, x := range w.Acc {
 			c.Acc[i] += x
 		}
+	}
+	// at most 3 samples per workload, so that every workload of a check shows up in the evidence
+	taken := 0
+	for _, w := range ws {
 		for _, s := range w.samples {
-			if len(c.Samples) < 24 {
+			if taken < 3 && len(c.Samples) < 40 {
 				c.Samples = append(c.Samples, s)
+				taken++
 			}
 		}
 	}
